@@ -1223,9 +1223,14 @@ pub fn probe_inputs(st: &PushState, names: &BTreeMap<String, InVal>) -> Option<S
     use push::instruction::Instruction;
     for (name, want) in names {
         let mut c = st.clone();
-        c.stack_mut::<i64>().set_max_stack_size(usize::MAX);
-        c.stack_mut::<OrderedFloat<f64>>().set_max_stack_size(usize::MAX);
-        c.stack_mut::<bool>().set_max_stack_size(usize::MAX);
+        // lifting a limit ("no limit") is itself a call into the code under test
+        if let Err(p) = vh_core::catch(|| {
+            c.stack_mut::<i64>().set_max_stack_size(usize::MAX);
+            c.stack_mut::<OrderedFloat<f64>>().set_max_stack_size(usize::MAX);
+            c.stack_mut::<bool>().set_max_stack_size(usize::MAX);
+        }) {
+            return Some(format!("setting a stack's maximum size to usize::MAX panicked: {p}"));
+        }
         let before = observe(&c);
         let instr = PushInstruction::InputVar(VariableName::from(name.as_str()));
         let after = match vh_core::catch(|| instr.perform(c)) {
